@@ -33,6 +33,7 @@ TRUSTED_BASE = [
     "Lean 4.33.0 kernel; axioms limited to propext, Classical.choice, Quot.sound (audited with #print axioms on every run)",
     "no sorry/admit/axiom/native_decide/bv_decide/implemented_by/unsafe in /verif/lean (grep on every run)",
     "extractor /verif/extract (go/ast) that regenerates KM/Gen from /repo's working tree",
+    "go2lean translator (extract/go2lean.go) + GoLite runtime (KM/Model/GoLite.lean, GoTypes.lean) for the cNN_go_* theorems: Go strings read as lists of code points, int as unbounded Int/Nat, pointers as Option without aliasing, logging dropped, calls into untranslated code are parameters (theorems hold for every behaviour of them)",
     "Go harness (go test -overlay, real code in-process) + kmdriver line protocol + generators in /verif/checks",
     "modelled not verified: Go standard library (net/http, net/url, crypto/*, html/template, database/sql), x/crypto/ssh, go-jose, sqlite, third-party 2FA libraries",
 ]
